@@ -28,6 +28,10 @@ def main(argv=None):
         return replay(mod, prop, a.replay, seed)
     only = set(a.only.split(",")) if a.only else None
     t0 = time.time()
+    if not only:
+        # replay files of earlier runs are stale: a VIOLATION line must point at a file written by this run
+        import shutil
+        shutil.rmtree(os.path.join(core.VERIF, "replays", prop), ignore_errors=True)
     phases = getattr(mod, "PHASES", None)
     if hasattr(mod, "_clean") and not only:
         mod._clean()
